@@ -24,6 +24,7 @@ double __v_exp_lemma_add(double a, double b);             // asserts E(a+b) = E(
 double __v_exp_lemma_inv(double a);                       // asserts E(a)E(-a) = 1; returns E(a)
 void   __v_note(const char* label);                       // free-form trace marker
 long   __v_concretize(long v);                            // fork over the feasible values of v
+void   __v_check_exp_args(const char* label);             // all exp() arguments so far are <= 0, one of them is 0
 }
 
 namespace verif {
